@@ -121,11 +121,21 @@ pub fn expr_of(j: &J, table: &[(&'static str, F, &'static str)]) -> Expr {
 }
 
 /// classify the argument situation of a failing function case (part of the finding key)
+/// numeric span (max - min) of an argument set; sets wider than one period of sin/cos are a known weak spot
+fn span(t: &DataType) -> f64 {
+    match t { DataType::Integer(i) => match (i.min(), i.max()) { (Some(a), Some(b)) => *b as f64 - *a as f64, _ => 0.0 },
+              DataType::Float(i) => match (i.min(), i.max()) { (Some(a), Some(b)) => b - a, _ => 0.0 },
+              DataType::Optional(o) => span(o.data_type()), _ => 0.0 }
+}
 fn arg_class(tys: &[DataType], vals: &[Value]) -> String {
     let mut parts = vec![];
     for t in tys { parts.push(vname(t)); }
-    let huge = vals.iter().any(|v| match v { Value::Integer(i) => (**i as i128).abs() >= (1i128 << 53), Value::Float(f) => f.abs() >= 9007199254740992.0, _ => false });
-    format!("{}{}", parts.join(","), if huge { "/huge" } else { "" })
+    let huge = vals.iter().any(|v| crate::s_dtype::vclass(v) == "huge");
+    let multi = tys.iter().any(|t| span(t) > 6.2);
+    // arguments beyond 1e6 in magnitude: the period reduction of sin/cos loses about |x|·2^-52 of absolute precision
+    let large = vals.iter().any(|v| match v { Value::Integer(i) => (**i as f64).abs() > 1e6, Value::Float(f) => f.abs() > 1e6, Value::Optional(o) => matches!(o.as_deref(), Some(Value::Float(f)) if f.abs() > 1e6) || matches!(o.as_deref(), Some(Value::Integer(i)) if (**i as f64).abs() > 1e6), _ => false });
+    let huge = huge || large;
+    format!("{}{}{}", parts.join(","), if huge { "/huge" } else { "" }, if multi { "/wide" } else { "" })
 }
 
 pub fn eval(case: &J) -> Outcome {
@@ -175,7 +185,13 @@ pub fn eval(case: &J) -> Outcome {
                 let y = guarded(|| node.value(&row_v));
                 let img = guarded(|| node.super_image(&row_t));
                 let before = out.oracle.len();
-                judge(&mut out, &format!("fn/{fname}"), &format!("{node} at {row_v}"), &row_t.to_string(), y, img, &arg_class(&cols, &vals));
+                // classify by the node's own arguments (their values on this row and their propagated types)
+                let (mut atys, mut avals) = (vec![], vec![]);
+                if let Expr::Function(f) = &node { for a in f.arguments() {
+                    if let Ok(Ok(v)) = guarded(|| a.value(&row_v)) { avals.push(v); }
+                    if let Ok(Ok(t)) = guarded(|| a.super_image(&row_t)) { atys.push(t); }
+                } }
+                judge(&mut out, &format!("fn/{fname}"), &format!("{node} at {row_v}"), &row_t.to_string(), y, img, &arg_class(&atys, &avals));
                 if out.oracle.len() > before { break; }
             }
         }
@@ -218,7 +234,7 @@ fn judge<E1: std::fmt::Display, E2: std::fmt::Display>(out: &mut Outcome, site: 
         Ok(Ok(y)) => {
             out.tag("value-ok");
             match img {
-                Ok(Ok(t)) => { if !mem_tol(&t, &y) { let cls = format!("{}{}", result_class(&y), if cls.ends_with("/huge") || crate::s_dtype::vclass(&y) == "huge" { "/huge" } else { "" }); out.fail(&format!("C06/{site}/unsound-image/{cls}"), format!("{what} = {y} but the propagated range of the arguments' type {set} is {t}, which does not contain it")); } }
+                Ok(Ok(t)) => { if !mem_tol(&t, &y) { let cls = format!("{}{}{}", result_class(&y), if cls.contains("/huge") || crate::s_dtype::vclass(&y) == "huge" { "/huge" } else { "" }, if cls.ends_with("/wide") { "/wide" } else { "" }); out.fail(&format!("C06/{site}/unsound-image/{cls}"), format!("{what} = {y} but the propagated range of the arguments' type {set} is {t}, which does not contain it")); } }
                 Ok(Err(e)) => out.fail(&format!("C06/{site}/image-fails/{}", result_class(&y)), format!("{what} = {y} but range propagation on {set} fails: {e}")),
                 Err(_) => {}
             }
